@@ -378,6 +378,194 @@ fn proc_body(c: &ProcCase) -> Result<(), String> {
     Ok(())
 }
 
+// ---------------------------------------------------------------------------
+// E2g: forked sender processes interleaved at *packet* granularity. Each sender process stops at
+// a gate before every packet transmission (sendmsg / send); the orchestrating process releases
+// the gates in an enumerated order, one transmission at a time. All interleavings of the two
+// processes' packet sequences are enumerated.
+
+#[derive(Clone, Debug, Serialize, Deserialize)]
+pub struct GateCase {
+    pub seqs: Vec<Vec<Sz>>,
+    /// which process performs the i-th packet transmission
+    pub order: Vec<usize>,
+    /// a multi-packet message is sent (and received) on the handle before the processes are forked
+    pub warmup: bool,
+}
+
+fn packets(sz: Sz) -> usize {
+    match sz {
+        Sz::S | Sz::One => 1,
+        Sz::L2 => 2,
+        Sz::L3 => 3,
+    }
+}
+
+fn gate_body(c: &GateCase) -> Result<(), String> {
+    let (tx, rx) = ipc::channel::<Vec<u8>>().map_err(|e| e.to_string())?;
+    if c.warmup {
+        tx.send(payload(9, 9, Sz::L2.len())).map_err(|e| e.to_string())?;
+        let v = rx.recv().map_err(|e| format!("{:?}", e))?;
+        validate(&v)?;
+    }
+    let mut ctl: Vec<(i32, i32, i32)> = Vec::new();
+    for (i, seq) in c.seqs.iter().enumerate() {
+        unsafe {
+            let mut c2p = [0i32; 2];
+            let mut p2c = [0i32; 2];
+            libc::pipe(c2p.as_mut_ptr());
+            libc::pipe(p2c.as_mut_ptr());
+            let pid = libc::fork();
+            if pid == 0 {
+                crate::interpose::after_fork_in_child();
+                libc::close(p2c[1]);
+                libc::close(c2p[0]);
+                for (_, w, r) in &ctl {
+                    libc::close(*w);
+                    libc::close(*r);
+                }
+                crate::interpose::set_gate(p2c[0], c2p[1]);
+                crate::interpose::arm();
+                let mut ok = true;
+                for (k, sz) in seq.iter().enumerate() {
+                    ok &= tx.send(payload(i as u32, k as u32, sz.len())).is_ok();
+                }
+                crate::interpose::disarm();
+                let d = [if ok { b'D' } else { b'E' }];
+                libc::write(c2p[1], d.as_ptr() as *const _, 1);
+                libc::_exit(0);
+            }
+            libc::close(p2c[0]);
+            libc::close(c2p[1]);
+            ctl.push((pid, p2c[1], c2p[0]));
+        }
+    }
+    drop(tx);
+    let read1 = |fd: i32| -> Result<u8, String> {
+        let mut b = [0u8; 1];
+        let n = unsafe { libc::read(fd, b.as_mut_ptr() as *mut _, 1) };
+        if n == 1 {
+            Ok(b[0])
+        } else {
+            Err("a sender process died".into())
+        }
+    };
+    // each process runs up to its first gate
+    let mut pending: Vec<u8> = Vec::new();
+    for (_, _, r) in &ctl {
+        pending.push(read1(*r)?);
+    }
+    // which message does each transmission belong to?  (first/last packet positions give the
+    // returned-before-began pairs)
+    let mut sent_pk = vec![0usize; c.seqs.len()];
+    let mut first_pos: Vec<Vec<usize>> = c.seqs.iter().map(|s| vec![usize::MAX; s.len()]).collect();
+    let mut last_pos: Vec<Vec<usize>> = c.seqs.iter().map(|s| vec![0; s.len()]).collect();
+    for (pos, &who) in c.order.iter().enumerate() {
+        if pending[who] != b'T' {
+            return Err(format!("MACHINERY: process {} is not at a gate (state {:?}) at step {}", who, pending[who] as char, pos));
+        }
+        // message index of this packet
+        let mut k = 0;
+        let mut acc = 0;
+        for (mi, sz) in c.seqs[who].iter().enumerate() {
+            acc += packets(*sz);
+            if sent_pk[who] < acc {
+                k = mi;
+                break;
+            }
+        }
+        sent_pk[who] += 1;
+        first_pos[who][k] = first_pos[who][k].min(pos);
+        last_pos[who][k] = pos;
+        unsafe {
+            let g = [b'g'];
+            libc::write(ctl[who].1, g.as_ptr() as *const _, 1);
+        }
+        pending[who] = read1(ctl[who].2)?;
+    }
+    for (i, p) in pending.iter().enumerate() {
+        if *p != b'D' {
+            return Err(if *p == b'E' { format!("a send in process {} failed on a healthy channel", i) } else { format!("MACHINERY: process {} made more transmissions than planned", i) });
+        }
+    }
+    for (pid, w, r) in &ctl {
+        unsafe {
+            libc::close(*w);
+            libc::close(*r);
+            let mut st = 0;
+            libc::waitpid(*pid, &mut st, 0);
+        }
+    }
+    let mut got: Vec<(u32, u32)> = Vec::new();
+    let total: usize = c.seqs.iter().map(|s| s.len()).sum();
+    loop {
+        match rx.recv() {
+            Ok(v) => got.push(validate(&v)?),
+            Err(IpcError::Disconnected) => break,
+            Err(e) => return Err(format!("recv: {:?}", e)),
+        }
+        if got.len() > total {
+            return Err("more messages than sent".into());
+        }
+    }
+    let mut sent = Vec::new();
+    for (i, s) in c.seqs.iter().enumerate() {
+        for k in 0..s.len() {
+            sent.push(SendRec { sender: i as u32, seq: k as u32, begin: 2 * first_pos[i][k] as u64, ret: 2 * last_pos[i][k] as u64 + 1, ok: true });
+        }
+    }
+    obs(format!("{:?}", got));
+    check_delivery(&sent, &got)
+}
+
+fn interleavings(counts: &[usize]) -> Vec<Vec<usize>> {
+    fn rec(left: &mut Vec<usize>, cur: &mut Vec<usize>, out: &mut Vec<Vec<usize>>) {
+        if left.iter().all(|x| *x == 0) {
+            out.push(cur.clone());
+            return;
+        }
+        for i in 0..left.len() {
+            if left[i] > 0 {
+                left[i] -= 1;
+                cur.push(i);
+                rec(left, cur, out);
+                cur.pop();
+                left[i] += 1;
+            }
+        }
+    }
+    let mut out = Vec::new();
+    rec(&mut counts.to_vec(), &mut Vec::new(), &mut out);
+    out
+}
+
+fn gate_cases(tier: Tier) -> Vec<GateCase> {
+    use Sz::*;
+    let mixes: Vec<Vec<Vec<Sz>>> = if tier.is_quick() {
+        vec![vec![vec![L2], vec![L2]], vec![vec![L3], vec![L2, S]], vec![vec![S, L2], vec![L2, S]]]
+    } else {
+        let seqs: Vec<Vec<Sz>> = vec![vec![L2], vec![L3], vec![S, L2], vec![L2, S], vec![L2, L2], vec![L3, S], vec![One, L2], vec![S, L3]];
+        let mut m = Vec::new();
+        for (i, a) in seqs.iter().enumerate() {
+            for b in seqs.iter().skip(i) {
+                m.push(vec![a.clone(), b.clone()]);
+            }
+        }
+        m.push(vec![vec![L2], vec![L2], vec![L2]]);
+        m
+    };
+    let mut v = Vec::new();
+    for m in mixes {
+        let counts: Vec<usize> = m.iter().map(|s| s.iter().map(|z| packets(*z)).sum()).collect();
+        for order in interleavings(&counts) {
+            for warmup in [false, true] {
+                v.push(GateCase { seqs: m.clone(), order: order.clone(), warmup });
+            }
+        }
+    }
+    v
+}
+
 fn proc_cases(tier: Tier) -> Vec<ProcCase> {
     use Sz::*;
     let mixes: Vec<Vec<Vec<Sz>>> = if tier.is_quick() {
@@ -431,12 +619,28 @@ pub fn run(tier: Tier, part_only: bool) -> i32 {
     for (c, e) in fails {
         rep.fail(&format!("{} :: {:?}", e, c), json!({"engine": "E2-proc", "case": c}));
     }
+    let gcs = gate_cases(tier);
+    let mut ngate = 0u64;
+    let mut gfails = Vec::new();
+    sweep(&gcs, 60.0, &|_| cfg.clone(), &gate_body, &mut |_, c, out| {
+        ngate += 1;
+        match super::describe(out) {
+            Ok(_) => {},
+            Err(e) if e.contains("MACHINERY") => rep.machinery(format!("{} :: {:?}", e, c)),
+            Err(e) => gfails.push((c.clone(), e)),
+        }
+    });
+    for (c, e) in gfails {
+        rep.fail(&format!("{} :: {:?}", e, c), json!({"engine": "E2-gate", "case": c}));
+    }
+    rep.set("forked_process_packet_interleavings", json!(ngate));
+    rep.sample(json!({"forked_process_packet_interleaving": gcs[gcs.len() / 2]}));
     rep.set("forked_process_cases", json!(nproc));
     rep.sample(json!({"forked_process_case": pcs[pcs.len() / 2]}));
     rep.set("deviation_bound_min", json!(tot.min_bound));
     rep.set("deviation_bound_max", json!(tot.max_bound));
-    rep.set("evaluations", json!(tot.execs + nproc));
-    rep.set("distinct_nontrivial", json!(tot.with_switch + nproc));
+    rep.set("evaluations", json!(tot.execs + nproc + ngate));
+    rep.set("distinct_nontrivial", json!(tot.with_switch + nproc + ngate));
     rep.set("rule", json!("one evaluation = one complete schedule of a scenario (sender sequences x handle kind x receiver behaviour) executed on the real code, or one forked-process interleaving; distinct by construction (DFS never repeats a choice sequence); non-trivial = contains at least one context switch"));
     rep.assume("scheduling points are system calls and futex waits; user-space-only steps between them are atomic (data-race-freedom of the transport: it communicates only through system calls)");
     rep.assume("a thread holding its own descriptor stands in for a process inside E1; real forked processes are orchestrated sequentially");
@@ -447,6 +651,15 @@ pub fn run(tier: Tier, part_only: bool) -> i32 {
 }
 
 pub fn replay(tier: Tier, v: &Value) -> i32 {
+    if v["engine"] == "E2-gate" {
+        let Ok(c) = serde_json::from_value::<GateCase>(v["case"].clone()) else { return 2 };
+        let cfg = Cfg { fake_sndbuf: Some(4608), ..Default::default() };
+        for r in 0..2 {
+            let out = crate::exec::run_one(&cfg, 60.0, &|| gate_body(&c));
+            println!("replay round {}: {:?} -> {:?}", r, c, super::describe(&out));
+        }
+        return 0;
+    }
     if v["engine"] == "E2-proc" {
         let Ok(c) = serde_json::from_value::<ProcCase>(v["case"].clone()) else { return 2 };
         let cfg = Cfg { fake_sndbuf: Some(4608), ..Default::default() };
